@@ -82,6 +82,33 @@ def dump(name, deps, roots_rs, dep_roots, stop=None, extra_toml='', features=Non
     return out
 
 
+def dump_bin(name, crate_dir, crate, pats, stop=None):
+    """dump selected functions (name contains one of pats) of a binary crate compiled in place (crate_dir is a scratch
+    copy; the target directory is ours)"""
+    ensure_bin()
+    stop = models.STOP if stop is None else stop
+    d = os.path.join(WORK, 'mir', name)
+    os.makedirs(d, exist_ok=True)
+    out = os.path.join(d, 'dump.jsonl')
+    spec = {'crate': crate, 'out': out, 'stop': stop, 'roots': [], 'local_roots': True, 'local_pats': pats}
+    specp = os.path.join(d, 'spec.json')
+    json.dump(spec, open(specp, 'w'))
+    if os.path.exists(out):
+        os.remove(out)
+    sr = sysroot()
+    env = {'RUSTC': BIN, 'LD_LIBRARY_PATH': sr + '/lib' + (':' + os.environ['LD_LIBRARY_PATH'] if os.environ.get('LD_LIBRARY_PATH') else ''),
+           'RUSTFLAGS': '-Zalways-encode-mir -Awarnings', 'MIRDUMP_SPEC': specp, 'CARGO_TARGET_DIR': os.path.join(WORK, 'mir-target-gen'), 'RUSTUP_TOOLCHAIN': 'nightly'}
+    # touch main.rs so that cargo re-runs the driver on the crate itself
+    mainrs = os.path.join(crate_dir, 'src', 'main.rs')
+    os.utime(mainrs, None)
+    t0 = time.time()
+    r = sh(['cargo', '+nightly', 'check', '--offline', '--bin', crate, '-q', '--color', 'never'], cwd=crate_dir, env=env, timeout=3600)
+    if r.returncode != 0 or not os.path.exists(out):
+        raise RuntimeError('mirdump build of %s failed (rc %d):\n%s' % (name, r.returncode, r.stdout[-4000:]))
+    log('  mirdump %s: %.0fs, %.1f MB' % (name, time.time() - t0, os.path.getsize(out) / 1e6))
+    return out
+
+
 class DumpError(RuntimeError):
     pass
 
